@@ -1037,6 +1037,29 @@ def m_math_readbits(ex, st, args, ins, fn):
     return None
 
 
+@model('github.com/lianxiangcloud/linkchain/libs/math.bigEndianByteAt')
+def m_math_byteat(ex, st, args, ins, fn):
+    """bigEndianByteAt(x, n): byte n of |x| counted from the least significant one (word indexing in the source)"""
+    b = bigobj(ex, st, args[0])
+    n = args[1]
+    if not isinstance(n, int):
+        raise Unsupported('bigEndianByteAt at a symbolic position')
+    if n < 0:
+        raise GoPanic('index-out-of-range', None, 'bigEndianByteAt negative position')
+    if isinstance(b.v, int):
+        return (abs(b.v) >> (8 * n)) & 0xFF
+    if b.bv is None:
+        raise Unsupported('bigEndianByteAt of a symbolic big.Int without a bit-vector view')
+    ax = SBV(b.bv, b.nn).abs().t
+    if 8 * n >= ax.size():
+        return 0
+    hi = min(8 * n + 7, ax.size() - 1)
+    e = z3.Extract(hi, 8 * n, ax)
+    if e.size() < 8:
+        e = z3.ZeroExt(8 - e.size(), e)
+    return z3.simplify(e)
+
+
 @model('(*math/big.Int).Bit')
 def m_big_bit(ex, st, args, ins, fn):
     b = bigobj(ex, st, args[0])
